@@ -20,7 +20,10 @@
      "default_chan"   omitted channel defaults to 80
      "two_claim"      TcpDriver tests for "udp://" (copy/paste) -> udp claimed twice, tcp by nobody
      "escape"         open_link does not catch exceptions of the driver lookup
-     "scan_no_addr"   scan_interface never puts the address into the reported URIs  *)
+     "scan_no_addr"   scan_interface never puts the address into the reported URIs
+     "scan_addr_reversed"  scan_interface hands the scan address to the radio least significant byte first
+                      (the reported URIs still carry the address as given): a Crazyflie that sits on the
+                      byte-mirrored address answers and is reported under a URI that parses to another address  *)
 EXTENDS Naturals, Sequences, FiniteSets, TLC
 
 CONSTANTS Bug,
@@ -188,13 +191,18 @@ StepM(uu, cl, e, o, s, rs, mm) ==
       \* RadioDriver.scan_interface(address)
       [] mm.pc = "s_open" -> IF e.nd = 0 THEN [mm EXCEPT !.pc = "done"]     \* no dongle: []
                              ELSE [mm EXCEPT !.pc = "s_addr"]
-      [] mm.pc = "s_addr" -> [mm EXCEPT !.raddr = IF s = <<>> THEN P!DefaultAddr ELSE s, !.sr = 0, !.pc = "s_rate"]
+      \* m.raddr = the address the radio transmits on (set_address); the URIs are formatted from the argument
+      [] mm.pc = "s_addr" -> [mm EXCEPT !.raddr = IF s = <<>> THEN P!DefaultAddr
+                                                  ELSE IF Bug = "scan_addr_reversed" THEN [i \in 1..5 |-> s[6 - i]]
+                                                  ELSE s,
+                                        !.sr = 0, !.pc = "s_rate"]
       [] mm.pc = "s_rate" ->
             LET r == mm.sr                                                  \* 250K, 1M, 2M in this order
                 cs == SortedSeq({x.chan : x \in {y \in rs : y.rate = r /\ y.addr = mm.raddr}})
                 withAddr == Bug # "scan_no_addr" /\ s # <<>> /\ s # P!DefaultAddr
+                uaddr == IF s = <<>> THEN P!DefaultAddr ELSE s
             IN [mm EXCEPT !.acked = @ \o [k \in 1..Len(cs) |-> [chan |-> cs[k], rate |-> r, addr |-> mm.raddr]],
-                          !.found = @ \o [k \in 1..Len(cs) |-> Render(cs[k], r, mm.raddr, withAddr)],
+                          !.found = @ \o [k \in 1..Len(cs) |-> Render(cs[k], r, uaddr, withAddr)],
                           !.sr = r + 1,
                           !.pc = IF r = 2 THEN "done" ELSE "s_rate"]
       [] OTHER -> mm
